@@ -127,7 +127,7 @@ def run_crate(crate, harnesses, jobs=6, harness_timeout=600, total_timeout=3600,
     info = {'cmd': ' '.join(cmd), 'crate': crate}
     try:
         # ulimit: keep a single CBMC from eating the box (62 GB, no swap)
-        p = subprocess.run(['bash', '-c', 'ulimit -v 25000000; exec "$@"', 'bash'] + cmd, cwd=d, env=_env(crate),
+        p = subprocess.run(['bash', '-c', 'ulimit -v 42000000; exec "$@"', 'bash'] + cmd, cwd=d, env=_env(crate),
                            capture_output=True, text=True, timeout=total_timeout)
         out = p.stdout + '\n' + p.stderr
         info['rc'] = p.returncode
@@ -160,7 +160,7 @@ def concrete_playback(crate, harness, timeout=1200):
     cmd = ['cargo', 'kani', '--output-format', 'terse', '--exact', '--harness', harness,
            '-Z', 'concrete-playback', '--concrete-playback=print'] + flags
     try:
-        p = subprocess.run(['bash', '-c', 'ulimit -v 25000000; exec "$@"', 'bash'] + cmd, cwd=crate_dir(crate),
+        p = subprocess.run(['bash', '-c', 'ulimit -v 42000000; exec "$@"', 'bash'] + cmd, cwd=crate_dir(crate),
                            env=_env(crate), capture_output=True, text=True, timeout=timeout)
     except subprocess.TimeoutExpired:
         return None
